@@ -626,6 +626,16 @@ func c16GenInvocation(r *hx.Rng, sig *c16Sig, wf, exotic bool) *c16Case {
 	for i, j := range pa {
 		shuffled[i] = args[j]
 	}
+	// splitargs is a set: it is written in any order (mrp writes it in map
+	// iteration order, BuildDataForAst in the order of the bindings)
+	if len(c.splitArgs) > 1 {
+		ps := c16Perm(r, len(c.splitArgs))
+		sh := make([]string, len(c.splitArgs))
+		for i, j := range ps {
+			sh[i] = c.splitArgs[j]
+		}
+		c.splitArgs = sh
+	}
 	var sp []string
 	for _, s := range c.splitArgs {
 		sp = append(sp, c16Quote(r, s, false))
